@@ -107,14 +107,14 @@ def run(ctx):
     _load_known(ctx)
     ctx.rule = ("correspondence: whole histories new(seed) ; (reseed | draw base/quadratic/cubic | draw_integers | check_leading_zeros | "
                 "nonce search)* ; probe, run on the real DefaultRandomCoin over ToyHasher<B> (8-byte digest) and WideToy<B,MODE> "
-                "(32-byte digest; modes that force the rejection branch, the 1000-try failure, and a first admissible candidate placed at try 998..1002) for B in f64/f62/f128, every "
+                "(32-byte digest; modes that force the rejection branch, the 1000-try failure, a first admissible candidate placed at try 998..1002, and first candidates with M, M+1 or 2^bits-1 - the gap [M, 2^MODULUS_BITS) - in each coefficient slot) for B in f64/f62/f128, every "
                 "output token and error class (ok/err/panic) compared with the extracted Gallina model. Boundary stream first: "
                 "every domain size 2^1..2^32 with counts 1 and min(255,dom-1) and nonces 0/1/u64::MAX, every count 1..255, counts "
                 ">= domain size, non-powers of two, zero counts, 999..1001 and 2000 values (iteration limit), seed lengths "
                 "0/1/2/3/7/8/9/40/100, every element type repeated, nonce search for grinding factors 0..8; then random histories. "
                 "falsifier: boundary nonces first (0, 1, 2, p-2..p+2 for the f64 modulus, k*p-1..k*p+1 for k = 1..4 and the f62 modulus, 2^32+-1, "
                 "2^62, 2^63+-1, u64::MAX-1, u64::MAX; every pair must give different draw_integers output and a different next draw, on "
-                "every hasher x field, three history variants), then random histories on the six real hashers checked against a reference counter-mode expansion written "
+                "every hasher x field, three history variants), gap candidates on WideToy<B,5> against the reference coin, then random histories on the six real hashers checked against a reference counter-mode expansion written "
                 "from the documentation, replay (determinism), canonical-form checks of every drawn element, interleaved "
                 "check_leading_zeros (purity), single-component mutations (sensitivity); distinct = distinct history lines")
     ctx.assumptions += [
